@@ -147,6 +147,9 @@ func c17FixedReuses() []c17Hist {
 		{Steps: []c17HStep{hd("/{v}", 1), q("/ab"), hd("/{w:[a-z]+}", 2), q("/ab"), q("/12"), q("/ab"), rm("/{w:[a-z]+}"), q("/ab"), df(1001), q("/a/b"), hd("/a/{x}", 3), q("/a/b"), q("/ab")}},
 		// a blocking middleware: only the trace is judged
 		{Mws: []c17Mw{{1, true}, {2, false}}, Steps: []c17HStep{hd("/u/{v}", 1), q("/u/c"), q("/none"), q("/u/d")}},
+		// ... and no default handler at all: for a path that nothing matches nothing runs, not even the middlewares
+		{Mws: []c17Mw{{1, true}, {2, false}}, Steps: []c17HStep{hd("/u/{v}", 1), q("/u/c"), df(-1), q("/none"), q("/u/d"), q("/none")}},
+		{Mws: []c17Mw{{1, true}}, Steps: []c17HStep{hd("/u/{v}", 1), q("/u/c"), df(-1), q("/none"), q("/u/d"), q("/none")}},
 	}
 }
 
